@@ -385,6 +385,44 @@ def retry_renamed(ctx, i, res, maxlen):
     return all(vals)
 
 
+def retry_renamed_tables(ctx, i, res, maxlen):
+    """Same for a formula with future operators (no finite-sequence
+    solutions to match by): try the permutations of the `_aux` names."""
+    import itertools
+    case, out = res['case'], res['out']
+    f = totuple(case['formula'])
+    u = 'true' if case['until'] else 'false'
+    printed = ctx.eval_terms(
+        f'ren{i}', HEADER, [f'x_names (translate true {u} {G.coq_form(f)})'])
+    model = parse_coq_value(printed[0])
+    impl = out['names']
+    if len(model) != len(impl):
+        return False
+    fixed = [a for a in impl if a in model and not a.startswith('_aux')]
+    src = [a for a in impl if a not in fixed]
+    dst = [m for m in model if m not in fixed]
+    if len(src) > 5:
+        return False
+    (defs, terms), keys = coq_group(i, res, maxlen)
+    assert defs.endswith('].')
+    groups = []
+    for perm in itertools.permutations(dst):
+        ren = list(zip(src, perm))
+        if all(a == m for a, m in ren):
+            continue
+        rl = '[' + '; '.join(f'("{a}", "{m}")' for a, m in ren) + ']'
+        d = defs.replace(f'Definition I{i} : impl := mkImpl',
+                         f'Definition I{i} : impl := rename_impl {rl} (mkImpl')
+        d = d[:-1] + ').'
+        groups.append((d, [t for t, k in zip(terms, keys)
+                           if k in ('names', 'tables')]))
+    # one file per candidate: the definitions have the same names
+    for g in groups:
+        if all(ctx.eval_groups(f'ren{i}', HEADER, [g])):
+            return True
+    return False
+
+
 def public_case(case):
     return {k: case[k] for k in ('formula', 'source', 'until', 'uservars',
                                  'kind', 'maxw', 'atoms') if k in case}
@@ -465,10 +503,10 @@ def correspond(ctx):
     renamed = 0
     for i in sorted(bad):
         res = ok[i]
-        if res['case']['kind'] != 'past':
-            continue
         try:
-            if retry_renamed(ctx, i, res, maxlen):
+            if (retry_renamed(ctx, i, res, maxlen)
+                    if res['case']['kind'] == 'past'
+                    else retry_renamed_tables(ctx, i, res, maxlen)):
                 del bad[i]
                 renamed += 1
         except Broken as b:
